@@ -575,8 +575,21 @@ def num_binop(I, op, a, b):
     if op == '*':
         return mk(x * y, 'int')
     if op in ('//', '%'):
-        if isinstance(b, Sym) or b <= 0:
-            raise Unsupported('floor division by non-positive or symbolic divisor')
+        if isinstance(b, Sym):
+            # symbolic divisor: Python's floor semantics coincide with z3's for a positive divisor
+            if not I.ctx.branch(y != 0):
+                I.throw('ZeroDivisionError', 'integer division or modulo by zero')
+            if not I.ctx.branch(y > 0):
+                raise Unsupported('floor division / modulo by a negative symbolic divisor')
+            q, r = x / y, x % y
+            # instances of the defining property (z3 treats division by a variable as nonlinear)
+            I.ctx.fact(z3.And(r >= 0, r < y, x == q * y + r))
+            I.ctx.fact(z3.Implies(z3.And(x >= 0, x < y), z3.And(r == x, q == 0)))
+            I.ctx.fact(z3.Implies(z3.And(x >= y, x < 2 * y), z3.And(r == x - y, q == 1)))
+            I.ctx.fact(z3.Implies(z3.And(x >= -y, x < 0), z3.And(r == x + y, q == -1)))
+            return mk(q if op == '//' else r, 'int')
+        if b <= 0:
+            raise Unsupported('floor division by a non-positive divisor')
         return mk(x / y if op == '//' else x % y, 'int')
     raise Unsupported(f'int op {op}')
 
